@@ -55,3 +55,14 @@ Definition law_task_reservation (up vc rq irq : res) (best_effort : bool) : bool
 Definition law_cache_reservation (up crq cirq : res) (best_effort : bool) (keys : list positive) : bool :=
   let want := cache_add_csi (add_scalar up pods_name 1) keys in
   bool_decide (crq = want) && bool_decide (cirq = want) && Bool.eqb best_effort (is_empty 1 want).
+
+(* event level: after an AddPod / UpdatePod event the cached task's Resreq and
+   InitResreq are upstream's request of the pod object OF THAT EVENT (+ pods), and
+   the node's Used carries the same amounts (it may keep zero entries of names an
+   earlier version requested) *)
+Definition law_event (up crq cirq used : res) : bool :=
+  law_same_request up crq && law_same_request up cirq &&
+  bool_decide (cpu used = cpu up) && bool_decide (mem used = mem up) &&
+  map_allb (fun k v => bool_decide (v = sget up k + (if bool_decide (k = pods_name) then 1 else 0))) (scm used) &&
+  map_allb (fun k v => bool_decide (sget used k = v + (if bool_decide (k = pods_name) then 1 else 0))) (scm up) &&
+  bool_decide (sget used pods_name = sget up pods_name + 1).
